@@ -1,8 +1,586 @@
 package c16
 
 import (
+	"bytes"
+	"context"
 	"encoding/json"
+	"fmt"
+	"reflect"
+	"regexp"
+	"sort"
+	"strings"
 	"testing"
+
+	"github.com/bufbuild/buf/private/bufpkg/bufconfig"
+	"github.com/bufbuild/buf/private/pkg/uuidutil"
+	"github.com/bufbuild/bufverif/internal/cfggen"
+	"github.com/bufbuild/bufverif/internal/evid"
+	"pgregory.net/rapid"
 )
 
-func replayDoc(t *testing.T, raw json.RawMessage) { t.Skip("round-trip part not built yet") }
+// ---------------------------------------------------------------------------------------------
+// observations: plain data built from accessors only
+
+type obsCheck struct {
+	FileVersion    string              `json:"file_version"`
+	Disabled       bool                `json:"disabled"`
+	Use            []string            `json:"use"`
+	Except         []string            `json:"except"`
+	Ignore         []string            `json:"ignore"`
+	IgnoreOnly     map[string][]string `json:"ignore_only"`
+	DisableBuiltin bool                `json:"disable_builtin"`
+}
+
+type obsLint struct {
+	obsCheck
+	EnumZeroValueSuffix                  string `json:"enum_zero_value_suffix"`
+	RPCAllowSameRequestResponse          bool   `json:"rpc_allow_same_request_response"`
+	RPCAllowGoogleProtobufEmptyRequests  bool   `json:"rpc_allow_google_protobuf_empty_requests"`
+	RPCAllowGoogleProtobufEmptyResponses bool   `json:"rpc_allow_google_protobuf_empty_responses"`
+	ServiceSuffix                        string `json:"service_suffix"`
+	AllowCommentIgnores                  bool   `json:"allow_comment_ignores"`
+}
+
+type obsBreaking struct {
+	obsCheck
+	IgnoreUnstablePackages bool `json:"ignore_unstable_packages"`
+}
+
+type obsModule struct {
+	DirPath  string              `json:"dir_path"`
+	FullName string              `json:"full_name"`
+	Includes map[string][]string `json:"includes"`
+	Excludes map[string][]string `json:"excludes"`
+	Lint     obsLint             `json:"lint"`
+	Breaking obsBreaking         `json:"breaking"`
+}
+
+type obsPlugin struct {
+	Type    int            `json:"type"`
+	Name    string         `json:"name"`
+	Args    []string       `json:"args"`
+	Ref     string         `json:"ref"`
+	Options map[string]any `json:"options"`
+}
+
+type obsBufYAML struct {
+	FileVersion     string      `json:"file_version"`
+	Modules         []obsModule `json:"modules"`
+	Deps            []string    `json:"deps"`
+	Plugins         []obsPlugin `json:"plugins"`
+	IncludeDocsLink bool        `json:"include_docs_link"`
+}
+
+func strs(in []string) []string {
+	if in == nil {
+		return []string{}
+	}
+	return append([]string{}, in...)
+}
+
+func strsMap(in map[string][]string) map[string][]string {
+	out := map[string][]string{}
+	for k, v := range in {
+		out[k] = strs(v)
+	}
+	return out
+}
+
+func observeCheck(c bufconfig.CheckConfig) obsCheck {
+	return obsCheck{
+		FileVersion:    c.FileVersion().String(),
+		Disabled:       c.Disabled(),
+		Use:            strs(c.UseIDsAndCategories()),
+		Except:         strs(c.ExceptIDsAndCategories()),
+		Ignore:         strs(c.IgnorePaths()),
+		IgnoreOnly:     strsMap(c.IgnoreIDOrCategoryToPaths()),
+		DisableBuiltin: c.DisableBuiltin(),
+	}
+}
+
+func observeLint(l bufconfig.LintConfig) obsLint {
+	return obsLint{
+		obsCheck:                             observeCheck(l),
+		EnumZeroValueSuffix:                  l.EnumZeroValueSuffix(),
+		RPCAllowSameRequestResponse:          l.RPCAllowSameRequestResponse(),
+		RPCAllowGoogleProtobufEmptyRequests:  l.RPCAllowGoogleProtobufEmptyRequests(),
+		RPCAllowGoogleProtobufEmptyResponses: l.RPCAllowGoogleProtobufEmptyResponses(),
+		ServiceSuffix:                        l.ServiceSuffix(),
+		AllowCommentIgnores:                  l.AllowCommentIgnores(),
+	}
+}
+
+func observeBreaking(b bufconfig.BreakingConfig) obsBreaking {
+	return obsBreaking{obsCheck: observeCheck(b), IgnoreUnstablePackages: b.IgnoreUnstablePackages()}
+}
+
+// normValue makes YAML/JSON decoded option values comparable (numbers as float64).
+func normValue(v any) any {
+	switch t := v.(type) {
+	case int:
+		return float64(t)
+	case int64:
+		return float64(t)
+	case uint64:
+		return float64(t)
+	case float32:
+		return float64(t)
+	case []any:
+		out := make([]any, len(t))
+		for i, e := range t {
+			out[i] = normValue(e)
+		}
+		return out
+	case map[string]any:
+		out := map[string]any{}
+		for k, e := range t {
+			out[k] = normValue(e)
+		}
+		return out
+	case map[any]any:
+		out := map[string]any{}
+		for k, e := range t {
+			out[fmt.Sprint(k)] = normValue(e)
+		}
+		return out
+	}
+	return v
+}
+
+func observeBufYAML(f bufconfig.BufYAMLFile) obsBufYAML {
+	o := obsBufYAML{FileVersion: f.FileVersion().String(), Modules: []obsModule{}, Deps: []string{}, Plugins: []obsPlugin{}, IncludeDocsLink: f.IncludeDocsLink()}
+	for _, m := range f.ModuleConfigs() {
+		om := obsModule{
+			DirPath:  m.DirPath(),
+			Includes: strsMap(m.RootToIncludes()),
+			Excludes: strsMap(m.RootToExcludes()),
+			Lint:     observeLint(m.LintConfig()),
+			Breaking: observeBreaking(m.BreakingConfig()),
+		}
+		if fn := m.FullName(); fn != nil {
+			om.FullName = fn.String()
+		}
+		o.Modules = append(o.Modules, om)
+	}
+	for _, r := range f.ConfiguredDepModuleRefs() {
+		o.Deps = append(o.Deps, r.String())
+	}
+	for _, p := range f.PluginConfigs() {
+		op := obsPlugin{Type: int(p.Type()), Name: p.Name(), Args: strs(p.Args()), Options: map[string]any{}}
+		if r := p.Ref(); r != nil {
+			op.Ref = r.String()
+		}
+		for k, v := range p.Options() {
+			op.Options[k] = normValue(v)
+		}
+		o.Plugins = append(o.Plugins, op)
+	}
+	return o
+}
+
+type obsKey struct {
+	FullName string `json:"full_name"`
+	Commit   string `json:"commit"`
+	Digest   string `json:"digest"`
+}
+
+type obsBufLock struct {
+	FileVersion string   `json:"file_version"`
+	Deps        []obsKey `json:"deps"`
+	Plugins     []obsKey `json:"plugins"`
+}
+
+func observeBufLock(f bufconfig.BufLockFile) (obsBufLock, error) {
+	o := obsBufLock{FileVersion: f.FileVersion().String(), Deps: []obsKey{}, Plugins: []obsKey{}}
+	for _, k := range f.DepModuleKeys() {
+		d, err := k.Digest()
+		if err != nil {
+			return o, err
+		}
+		o.Deps = append(o.Deps, obsKey{FullName: k.FullName().String(), Commit: uuidutil.ToDashless(k.CommitID()), Digest: d.String()})
+	}
+	for _, k := range f.RemotePluginKeys() {
+		d, err := k.Digest()
+		if err != nil {
+			return o, err
+		}
+		o.Plugins = append(o.Plugins, obsKey{FullName: k.FullName().String(), Commit: uuidutil.ToDashless(k.CommitID()), Digest: d.String()})
+	}
+	return o, nil
+}
+
+type obsBufWork struct {
+	FileVersion string   `json:"file_version"`
+	DirPaths    []string `json:"dir_paths"`
+}
+
+type obsGenPlugin struct {
+	Type           int      `json:"type"`
+	Name           string   `json:"name"`
+	Out            string   `json:"out"`
+	Opt            string   `json:"opt"`
+	IncludeImports bool     `json:"include_imports"`
+	IncludeWKT     bool     `json:"include_wkt"`
+	Strategy       int      `json:"strategy"`
+	Path           []string `json:"path"`
+	ProtocPath     []string `json:"protoc_path"`
+	RemoteHost     string   `json:"remote_host"`
+	Revision       int      `json:"revision"`
+	IncludeTypes   []string `json:"types"`
+	ExcludeTypes   []string `json:"exclude_types"`
+}
+
+type obsManagedRule struct {
+	Path        string `json:"path"`
+	Module      string `json:"module"`
+	Field       string `json:"field"`
+	FileOption  string `json:"file_option"`
+	FieldOption string `json:"field_option"`
+	Value       string `json:"value,omitempty"`
+}
+
+type obsInput struct {
+	Type                string   `json:"type"`
+	Location            string   `json:"location"`
+	Compression         string   `json:"compression"`
+	StripComponents     uint32   `json:"strip_components"`
+	SubDir              string   `json:"subdir"`
+	Branch              string   `json:"branch"`
+	CommitOrTag         string   `json:"commit_or_tag"`
+	Ref                 string   `json:"ref"`
+	Depth               string   `json:"depth"`
+	RecurseSubmodules   bool     `json:"recurse_submodules"`
+	IncludePackageFiles bool     `json:"include_package_files"`
+	TargetPaths         []string `json:"paths"`
+	ExcludePaths        []string `json:"exclude_paths"`
+	IncludeTypes        []string `json:"types"`
+	ExcludeTypes        []string `json:"exclude_types"`
+}
+
+type obsBufGen struct {
+	Clean          bool             `json:"clean"`
+	Plugins        []obsGenPlugin   `json:"plugins"`
+	ManagedEnabled bool             `json:"managed_enabled"`
+	Disables       []obsManagedRule `json:"managed_disable"`
+	Overrides      []obsManagedRule `json:"managed_override"`
+	Inputs         []obsInput       `json:"inputs"`
+}
+
+func observeBufGen(f bufconfig.BufGenYAMLFile) obsBufGen {
+	g := f.GenerateConfig()
+	o := obsBufGen{Clean: g.CleanPluginOuts(), Plugins: []obsGenPlugin{}, Disables: []obsManagedRule{}, Overrides: []obsManagedRule{}, Inputs: []obsInput{}}
+	for _, p := range g.GeneratePluginConfigs() {
+		o.Plugins = append(o.Plugins, obsGenPlugin{
+			Type: int(p.Type()), Name: p.Name(), Out: p.Out(), Opt: p.Opt(), IncludeImports: p.IncludeImports(), IncludeWKT: p.IncludeWKT(),
+			Strategy: int(p.Strategy()), Path: strs(p.Path()), ProtocPath: strs(p.ProtocPath()), RemoteHost: p.RemoteHost(), Revision: p.Revision(),
+			IncludeTypes: strs(p.IncludeTypes()), ExcludeTypes: strs(p.ExcludeTypes()),
+		})
+	}
+	if m := g.GenerateManagedConfig(); m != nil {
+		o.ManagedEnabled = m.Enabled()
+		for _, d := range m.Disables() {
+			o.Disables = append(o.Disables, obsManagedRule{Path: d.Path(), Module: d.FullName(), Field: d.FieldName(), FileOption: d.FileOption().String(), FieldOption: d.FieldOption().String()})
+		}
+		for _, d := range m.Overrides() {
+			o.Overrides = append(o.Overrides, obsManagedRule{Path: d.Path(), Module: d.FullName(), Field: d.FieldName(), FileOption: d.FileOption().String(), FieldOption: d.FieldOption().String(),
+				Value: fmt.Sprintf("%T:%v", d.Value(), d.Value())})
+		}
+	}
+	for _, in := range f.InputConfigs() {
+		oi := obsInput{
+			Type: in.Type().String(), Location: in.Location(), Compression: in.Compression(), StripComponents: in.StripComponents(), SubDir: in.SubDir(),
+			Branch: in.Branch(), CommitOrTag: in.CommitOrTag(), Ref: in.Ref(), Depth: "unset", RecurseSubmodules: in.RecurseSubmodules(),
+			IncludePackageFiles: in.IncludePackageFiles(), TargetPaths: strs(in.TargetPaths()), ExcludePaths: strs(in.ExcludePaths()),
+			IncludeTypes: strs(in.IncludeTypes()), ExcludeTypes: strs(in.ExcludeTypes()),
+		}
+		if d := in.Depth(); d != nil {
+			oi.Depth = fmt.Sprint(*d)
+		}
+		o.Inputs = append(o.Inputs, oi)
+	}
+	return o
+}
+
+// normalizeLegacyGen applies the documented translation of v1/v1beta1 generation templates to the
+// observation of the ORIGINAL file: the writer always writes a v2 file, where a local plugin has no
+// name of its own (its name is its command line) and a plugin given only by name is written either
+// as local `protoc-gen-<name>` or, for protoc's built-in languages when no such binary is on PATH,
+// as `protoc_builtin: <name>`. `after` is the observation of the re-read file.
+func normalizeLegacyGen(before obsBufGen, after obsBufGen) obsBufGen {
+	out := before
+	out.Plugins = append([]obsGenPlugin{}, before.Plugins...)
+	for i := range out.Plugins {
+		p := &out.Plugins[i]
+		switch bufconfig.GeneratePluginConfigType(p.Type) {
+		case bufconfig.GeneratePluginConfigTypeLocal:
+			p.Name = strings.Join(p.Path, " ")
+		case bufconfig.GeneratePluginConfigTypeLocalOrProtocBuiltin:
+			_, builtin := bufconfig.ProtocProxyPluginNames[p.Name]
+			if i < len(after.Plugins) && builtin && bufconfig.GeneratePluginConfigType(after.Plugins[i].Type) == bufconfig.GeneratePluginConfigTypeProtocBuiltin {
+				p.Type = int(bufconfig.GeneratePluginConfigTypeProtocBuiltin)
+			} else {
+				p.Type = int(bufconfig.GeneratePluginConfigTypeLocal)
+				p.Name = "protoc-gen-" + p.Name
+				p.Path = []string{p.Name}
+			}
+		}
+	}
+	return out
+}
+
+// ---------------------------------------------------------------------------------------------
+// comparison
+
+func toGeneric(v any) any {
+	data, err := json.Marshal(v)
+	if err != nil {
+		panic(err)
+	}
+	var out any
+	if err := json.Unmarshal(data, &out); err != nil {
+		panic(err)
+	}
+	return out
+}
+
+// firstDiff returns the path of the first difference between two JSON-like values ("" = equal).
+func firstDiff(path string, a, b any) (string, string) {
+	switch ta := a.(type) {
+	case map[string]any:
+		tb, ok := b.(map[string]any)
+		if !ok {
+			return path, fmt.Sprintf("%v vs %v", a, b)
+		}
+		keys := map[string]bool{}
+		for k := range ta {
+			keys[k] = true
+		}
+		for k := range tb {
+			keys[k] = true
+		}
+		sorted := make([]string, 0, len(keys))
+		for k := range keys {
+			sorted = append(sorted, k)
+		}
+		sort.Strings(sorted)
+		for _, k := range sorted {
+			va, oka := ta[k]
+			vb, okb := tb[k]
+			p := path + "." + k
+			if !oka || !okb {
+				return p, fmt.Sprintf("before %s, after %s", present(va, oka), present(vb, okb))
+			}
+			if dp, dm := firstDiff(p, va, vb); dp != "" {
+				return dp, dm
+			}
+		}
+		return "", ""
+	case []any:
+		tb, ok := b.([]any)
+		if !ok {
+			return path, fmt.Sprintf("%v vs %v", a, b)
+		}
+		for i := 0; i < len(ta) && i < len(tb); i++ {
+			if dp, dm := firstDiff(fmt.Sprintf("%s[%d]", path, i), ta[i], tb[i]); dp != "" {
+				return dp, dm
+			}
+		}
+		if len(ta) != len(tb) {
+			return path, fmt.Sprintf("before %d element(s) %v, after %d element(s) %v", len(ta), ta, len(tb), tb)
+		}
+		return "", ""
+	default:
+		if !reflect.DeepEqual(a, b) {
+			return path, fmt.Sprintf("before %#v, after %#v", a, b)
+		}
+		return "", ""
+	}
+}
+
+func present(v any, ok bool) string {
+	if !ok {
+		return "absent"
+	}
+	return fmt.Sprintf("%v", v)
+}
+
+var indexRE = regexp.MustCompile(`\[\d+\]`)
+
+// classifier turns a diff path such as ".modules[1].lint.ignore_only.ENUM_PASCAL_CASE" into
+// "modules.lint.ignore_only".
+func classifier(path string) string {
+	p := strings.TrimPrefix(indexRE.ReplaceAllString(path, ""), ".")
+	parts := strings.Split(p, ".")
+	if len(parts) > 3 {
+		parts = parts[:3]
+	}
+	for i, s := range parts {
+		if i > 0 && (parts[i-1] == "ignore_only" || parts[i-1] == "options" || parts[i-1] == "includes" || parts[i-1] == "excludes") {
+			parts = parts[:i]
+			break
+		}
+		_ = s
+	}
+	return strings.Join(parts, ".")
+}
+
+// ---------------------------------------------------------------------------------------------
+// the oracle
+
+type docCase struct {
+	Kind     string   `json:"kind"` // "doc"
+	Doc      string   `json:"doc"`  // buf.yaml | buf.lock | buf.work.yaml | buf.gen.yaml
+	Version  string   `json:"version"`
+	FileName string   `json:"file_name"`
+	Text     string   `json:"text"`
+	Features []string `json:"features,omitempty"`
+}
+
+type verdict struct {
+	key, msg string
+	harness  bool
+	info     []string // informational classes
+	excluded []string
+}
+
+func violation(key, format string, args ...any) *verdict {
+	return &verdict{key: key, msg: fmt.Sprintf(format, args...)}
+}
+
+// readWrite abstracts the four file kinds: read text -> (observation, written text).
+type handle struct {
+	obs     any
+	written string
+}
+
+func process(ctx context.Context, c docCase, text string) (h handle, readErr error, writeErr error) {
+	var buf bytes.Buffer
+	switch c.Doc {
+	case "buf.yaml":
+		f, err := bufconfig.ReadBufYAMLFile(strings.NewReader(text), c.FileName)
+		if err != nil {
+			return h, err, nil
+		}
+		h.obs = observeBufYAML(f)
+		writeErr = bufconfig.WriteBufYAMLFile(&buf, f)
+	case "buf.lock":
+		f, err := bufconfig.ReadBufLockFile(ctx, strings.NewReader(text), c.FileName)
+		if err != nil {
+			return h, err, nil
+		}
+		o, err := observeBufLock(f)
+		if err != nil {
+			return h, err, nil
+		}
+		h.obs = o
+		writeErr = bufconfig.WriteBufLockFile(&buf, f)
+	case "buf.work.yaml":
+		f, err := bufconfig.ReadBufWorkYAMLFile(strings.NewReader(text), c.FileName)
+		if err != nil {
+			return h, err, nil
+		}
+		h.obs = obsBufWork{FileVersion: f.FileVersion().String(), DirPaths: strs(f.DirPaths())}
+		writeErr = bufconfig.WriteBufWorkYAMLFile(&buf, f)
+	case "buf.gen.yaml":
+		f, err := bufconfig.ReadBufGenYAMLFile(strings.NewReader(text))
+		if err != nil {
+			return h, err, nil
+		}
+		h.obs = observeBufGen(f)
+		writeErr = bufconfig.WriteBufGenYAMLFile(&buf, f)
+	default:
+		return h, fmt.Errorf("harness: unknown document kind %q", c.Doc), nil
+	}
+	h.written = buf.String()
+	return h, nil, writeErr
+}
+
+// checkDoc: observe(Read(Write(Read(d)))) == observe(Read(d)) and Write is idempotent.
+func checkDoc(ctx context.Context, c docCase) *verdict {
+	tag := c.Doc + ":" + c.Version
+	h1, rerr, werr := process(ctx, c, c.Text)
+	if rerr != nil {
+		return &verdict{harness: true, msg: fmt.Sprintf("harness: generated %s document rejected by the reader: %v\n%s", tag, rerr, c.Text)}
+	}
+	if werr != nil {
+		return violation("write-failed:"+tag, "a %s document the reader accepts cannot be written back: %v\ndocument:\n%s", tag, werr, c.Text)
+	}
+	h2, rerr, werr := process(ctx, c, h1.written)
+	if rerr != nil {
+		return violation("reread-failed:"+tag, "the file written for a valid %s document is rejected by the reader: %v\ndocument:\n%s\nwritten:\n%s", tag, rerr, c.Text, h1.written)
+	}
+	v := &verdict{}
+	before, after := h1.obs, h2.obs
+	if c.Doc == "buf.gen.yaml" && c.Version != "v2" {
+		before = normalizeLegacyGen(h1.obs.(obsBufGen), h2.obs.(obsBufGen))
+	}
+	if path, detail := firstDiff("", toGeneric(before), toGeneric(after)); path != "" {
+		return violation("roundtrip:"+tag+":"+classifier(path), "%s: field %s differs after write+read: %s\ndocument:\n%s\nwritten:\n%s", tag, path, detail, c.Text, h1.written)
+	}
+	if werr != nil {
+		return violation("write-failed:"+tag, "second write of %s failed: %v\ndocument:\n%s\nfirst written:\n%s", tag, werr, c.Text, h1.written)
+	}
+	if h2.written != h1.written {
+		return violation("write-not-idempotent:"+tag, "%s: Write(Read(Write(Read(d)))) differs from Write(Read(d))\ndocument:\n%s\nfirst:\n%s\nsecond:\n%s", tag, c.Text, h1.written, h2.written)
+	}
+	return v
+}
+
+// ---------------------------------------------------------------------------------------------
+// tests
+
+func runDocs(t *testing.T, salt int, quick, thorough int, gen func(*rapid.T) cfggen.Doc) {
+	r := evid.R()
+	ctx := context.Background()
+	r.Check(t, r.Scale(quick, thorough), salt, func(t *rapid.T) {
+		d := gen(t)
+		c := docCase{Kind: "doc", Doc: d.Kind, Version: d.Version, FileName: d.FileName, Text: d.Text, Features: d.Features}
+		r.Eval()
+		r.Class(d.Kind + ":" + d.Version)
+		seen := map[string]bool{}
+		for _, f := range d.Features {
+			if !seen[f] {
+				seen[f] = true
+				r.Class(d.Kind + ":" + f)
+			}
+		}
+		if d.NonTrivial {
+			r.NonTrivial(d.Kind + "\x00" + d.Text)
+			r.Sample(map[string]any{"kind": d.Kind, "version": d.Version, "text": d.Text})
+		}
+		v := checkDoc(ctx, c)
+		if v == nil {
+			return
+		}
+		if v.harness {
+			t.Fatalf("%s", v.msg)
+		}
+		if v.key != "" {
+			r.Fail(t, v.key, v.msg, c)
+		}
+	})
+}
+
+func TestRoundTripBufYAML(t *testing.T) { runDocs(t, 1, 2400, 60000, cfggen.GenBufYAML) }
+func TestRoundTripBufLock(t *testing.T) { runDocs(t, 2, 600, 12000, cfggen.GenBufLock) }
+func TestRoundTripBufWork(t *testing.T) { runDocs(t, 3, 300, 4000, cfggen.GenBufWork) }
+func TestRoundTripBufGen(t *testing.T)  { runDocs(t, 4, 1500, 30000, cfggen.GenBufGen) }
+
+func replayDoc(t *testing.T, raw json.RawMessage) {
+	var c docCase
+	if err := json.Unmarshal(raw, &c); err != nil {
+		t.Fatalf("harness: replay case: %v", err)
+	}
+	r := evid.R()
+	r.Eval()
+	v := checkDoc(context.Background(), c)
+	if v == nil {
+		return
+	}
+	if v.harness {
+		t.Fatalf("%s", v.msg)
+	}
+	if v.key != "" {
+		r.Fail(t, v.key, v.msg, c)
+	}
+}
